@@ -344,8 +344,11 @@ class Ctx:
               "wall_s": round(time.time() - self.t0, 2), "violations": nviol,
               "known_findings_reported": [l for l in lines if l.startswith("KNOWN")],
               "repo": self.repo}
-        os.makedirs(os.path.join(VERIF, "evidence"), exist_ok=True)
-        json.dump(ev, open(os.path.join(VERIF, "evidence", self.pid + ".json"), "w"), indent=1, default=str)
+        # the committed evidence is always about /repo itself; runs against another checkout
+        # (VERIF_REPO=<scratch worktree>, seeded changes) write to build/evidence_alt instead
+        evdir = os.path.join(VERIF, "evidence") if os.path.realpath(self.repo) == "/repo" else os.path.join(VERIF, "build", "evidence_alt")
+        os.makedirs(evdir, exist_ok=True)
+        json.dump(ev, open(os.path.join(evdir, self.pid + ".json"), "w"), indent=1, default=str)
         for l in lines:
             print(l, flush=True)
         self.log("obligations %d discharged %d, cases %d (nontrivial %d), violations %d, %.1fs"
